@@ -540,3 +540,38 @@ def replay_stdigraph_width(o, model):
             if got != want:
                 return dict(ok=True, function="stDiGraph.get_width", edges=E, ignore=ign, observed=str(sorted(got.items())), expected=str(sorted(want.items())))
     return dict(ok=False, function="stDiGraph.get_width", tried=tried)
+
+
+def replay_subgraph_scanning(o, model):
+    """native replay for MinFlowDecomp._get_lowerbound_with_subgraph_scanning: long narrow DAGs (23-29 nodes: the window of 20 nodes really slides), with and without an
+    ignored diamond on a window boundary; MinFlowDecomp with use_subgraph_scanning_lowerbound=True must be solved with the same number of paths as without the option."""
+    import networkx as nx
+    import flowpaths as fp
+    tried = []
+    def chain(n, diamonds, ignore_at=None):
+        G, ign = nx.DiGraph(), []
+        for i in range(n):
+            if i in diamonds:
+                G.add_edge("v%d" % i, "v%d" % (i + 1), flow=3)
+                G.add_edge("v%d" % i, "x%d" % i, flow=2)
+                G.add_edge("x%d" % i, "v%d" % (i + 1), flow=2)
+                if ignore_at == i:
+                    ign = [("v%d" % i, "v%d" % (i + 1)), ("v%d" % i, "x%d" % i), ("x%d" % i, "v%d" % (i + 1))]
+            else:
+                G.add_edge("v%d" % i, "v%d" % (i + 1), flow=5)
+        return G, ign
+    for n, diamonds, ignore_at in ((21, (19,), 19), (21, (19,), None), (26, (5, 19), 19), (26, (18, 22), None), (23, (0, 20), 20)):
+        G, ign = chain(n, diamonds, ignore_at)
+        got = {}
+        for scan in (False, True):
+            try:
+                m = fp.MinFlowDecomp(G, flow_attr="flow", weight_type=int, elements_to_ignore=list(ign), optimization_options={"use_subgraph_scanning_lowerbound": scan})
+                m.solve()
+                got[scan] = len(m.get_solution()["paths"]) if m.is_solved() else "unsolved"
+            except Exception as e:      # noqa
+                got[scan] = "raised %s: %s" % (type(e).__name__, str(e)[:80])
+        rec = dict(nodes=n + 1, diamonds=list(diamonds), ignored_diamond=ignore_at, without_option=got[False], with_option=got[True])
+        if got[False] != got[True]:
+            return dict(ok=True, function="MinFlowDecomp (use_subgraph_scanning_lowerbound)", **rec)
+        tried.append(rec)
+    return dict(ok=False, function="MinFlowDecomp (use_subgraph_scanning_lowerbound)", tried=tried)
